@@ -33,7 +33,7 @@ import (
 const modPath = "github.com/ipfs/go-unixfsnode"
 
 // packages whose field accesses and sync imports are instrumented
-var fieldPkgs = map[string]bool{".": true, "hamt": true, "file": true, "iter": true, "directory": true}
+var fieldPkgs = map[string]bool{".": true, "hamt": true, "file": true, "iter": true, "directory": true, "data": true, "data/builder": true, "data/builder/quick": true, "utils": true}
 
 type report struct {
 	Files            map[string]int `json:"rewrites_per_file"`
@@ -129,6 +129,11 @@ func main() {
 			rep.PackagesAnalysed = append(rep.PackagesAnalysed, ipath)
 			doFields := fieldPkgs[filepath.ToSlash(rel)] && !*light
 			for i, f := range files {
+				// generated schema code (data/ipldsch_*.go: ~1300 accesses of
+				// per-call assembler state) is left uninstrumented: the hooks
+				// there multiply the cost of every block decode by 5 and the state
+				// is never shared
+				doFields := doFields && !strings.HasPrefix(filepath.Base(kept[i]), "ipldsch_")
 				n := rewriteFile(fset, f, info, doFields, &rep)
 				syncN := 0
 				if doFields {
